@@ -222,8 +222,9 @@ func GenerateBadger(r *vh.Rand) []Case {
 	}
 
 	var out []Case
+	txAsset := common.XINAssetId
 	emit := func(kind string, slots []owned, idx []uint, total *big.Int) {
-		tx := common.NewTransactionV5(common.XINAssetId)
+		tx := common.NewTransactionV5(txAsset)
 		var privs []crypto.Key
 		for j, o := range slots {
 			tx.Inputs = append(tx.Inputs, &common.Input{Hash: o.hash, Index: idx[j]})
@@ -258,6 +259,13 @@ func GenerateBadger(r *vh.Rand) []Case {
 		a, b := pool[0], pool[len(pool)-1]
 		emit("two-real-slots", []owned{a, b}, []uint{a.index, b.index}, new(big.Int).Add(a.amount, b.amount))
 	}
+	// the real store holds XIN outputs only: a transaction of another asset spending them
+	for _, a := range []crypto.Hash{common.BitcoinAssetId, randHash(r)} {
+		txAsset = a
+		o := pool[r.Intn(len(pool))]
+		emit("cross-asset", []owned{o}, []uint{o.index}, o.amount)
+	}
+	txAsset = common.XINAssetId
 	spent := owned{gv.PayloadHash(), 0, common.VerifIntegerBig(g.Outputs[0].Amount), gp[0], ng}
 	emit("spent-slot", []owned{spent}, []uint{0}, spent.amount)
 	emit("spent-slot-alias+256", []owned{spent}, []uint{256}, spent.amount)
